@@ -328,6 +328,60 @@ def rule_modules(ctx: Ctx, repo: Repo) -> None:
                     ctx.check(g_[3] == deco.get(k[0], []), "R-C12.1", bm.fq, "the decorator in the module stub matches the function's kind", construct=f"{lab}: {g_[1]} {g_[3]}")
 
 
+def rule_typed_dict_fields(ctx: Ctx, repo: Repo) -> None:
+    """R-C12.7: a generated TypedDict class lists its keys as class attributes `key: type`, so every key of a TypedDict
+    that inference can build from a dict must be writable as one: inference is interpreted on concrete dicts whose string
+    keys are not identifiers (`my-key`, `1st`, the empty string, a key with a blank) or are reserved words (`class`,
+    `from`), for limits that would admit them; AttributeStub.render is interpreted for the key and the line is parsed."""
+    import keyword
+    from . import concrete_infer as CI
+    from .common import RepoInterp
+    from mtsa.absint import K, R, S
+    attr_render = repo.method(repo.cls("monkeytype.stubs", "AttributeStub"), "render")
+    gdt = repo.fn("monkeytype.typing", "get_dict_type")
+    ctx.functions.update({attr_render.fq, gdt.fq})
+
+    def field_line(key: str) -> str:
+        ri = RepoInterp(repo, attr_render, may_fork=(), heap=True,
+                        call_hook=lambda call, fname, fval, args, kwargs, st: K("int") if (fname or "").endswith("render_annotation") else None)
+        ri.construct_instances = False
+        outs = ri.run({"self": R("inst", name=K(key), typ=S("builtin:int"), __cls__=K(attr_render.cls.fq)), "prefix": K("    ")})
+        if len(outs) != 1 or outs[0].term is None or outs[0].term[0] != "return" or not isinstance(outs[0].term[1], K):
+            raise AnalysisError("AttributeStub.render: the rendered line is not a foldable string")
+        return str(outs[0].term[1].v)
+
+    n = 0
+    for key in ("my-key", "1st", "", "a b", "class", "from", "None", "ok_key"):
+        for k in (1, 3):
+            for extra in ((), (("other", 2),)):
+                if len(extra) + 1 > k:
+                    continue
+                pairs = ((K(key), K(1)),) + tuple((K(a), K(b)) for a, b in extra)
+                t = CI.infer(repo, CI.dct("d", *pairs), k)
+                n += 1
+                tds = CI.typed_dicts_in(t)
+                lab = f"get_type({{{', '.join(repr(a.v) + ': ' + repr(b.v) for a, b in pairs)}}}, max_typed_dict_size={k})"
+                if not tds:
+                    ctx.ok("R-C12.7", gdt.fq, "a dict with a key that cannot be a class attribute is not turned into a TypedDict", scenario=lab)
+                    ctx.check(key != "ok_key", "R-C12.7", gdt.fq, "a dict whose keys are all identifiers within the limit is still turned into a TypedDict (the rule does not pass vacuously)",
+                              construct=f"{lab} -> {CI.short(t)}")
+                    continue
+                for td in tds:
+                    for fk, _ in CI._items(td.fields["required"]) + CI._items(td.fields["optional"]):
+                        name = fk.v if isinstance(fk, K) else str(fk)
+                        text = "class X(TypedDict):\n" + field_line(name) + "\n"
+                        try:
+                            ast.parse(text)
+                            okp = True
+                        except SyntaxError:
+                            okp = False
+                        ctx.check(okp, "R-C12.7", gdt.fq,
+                                  "every key of a TypedDict that inference builds can be written as a field of the generated class (the stub stays valid Python)",
+                                  construct=f"a TypedDict field whose name is {'a reserved word' if keyword.iskeyword(name) else 'not an identifier'}: the generated class has the line `{field_line(name).strip()}`"
+                                  if not okp else f"field {name!r}", scenario=lab)
+    ctx.floor("R-C12.7", "dicts with awkward string keys inferred", n, 20)
+
+
 def run(ctx: Ctx, repo: Repo, tier: str) -> None:
     ctx.trust("Python's grammar as implemented by ast.parse of the analysing interpreter (oracle for the rendered text)",
               "Python semantics of classmethod/staticmethod/property: which of them receive the instance/class first")
@@ -335,3 +389,4 @@ def run(ctx: Ctx, repo: Repo, tier: str) -> None:
     rule_kinds(ctx, repo)
     rule_async(ctx, repo)
     rule_modules(ctx, repo)
+    rule_typed_dict_fields(ctx, repo)
